@@ -109,7 +109,14 @@ func genC03(repo string, args []string) (string, error) {
 	add("nodeText: to is the file offset of n.End()", nts[normText("to := rr.ctx.Fset.Position(n.End()).Offset")] == 1)
 	add("nodeText: src is the file's bytes", nts[normText("src := rr.fileBytes()")] == 1)
 	add("nodeText: in-range branch returns src[from:to]", sliceRet)
-	add("nodeText: an empty node slice has no text", nts[normText("if gogrep.IsEmptyNodeSlice(n) {return nil}")] == 1)
+	// the first statement returns no text for a node that stands for nothing (`if <test>(n) { return nil }`, whatever the test is called)
+	absentFirst := false
+	if is, ok := nt.Body.List[0].(*ast.IfStmt); ok && is.Init == nil && is.Else == nil && len(is.Body.List) == 1 && normStmt(fset, is.Body.List[0]) == "return nil" {
+		if ce, ok := is.Cond.(*ast.CallExpr); ok && len(ce.Args) == 1 && exprString(fset, ce.Args[0]) == "n" {
+			absentFirst = true
+		}
+	}
+	add("nodeText: a node that stands for nothing has no text", absentFirst)
 
 	// ---- renderMessage
 	rm := c03FindFunc(rf, "renderMessage")
@@ -132,21 +139,130 @@ func genC03(repo string, args []string) (string, error) {
 	if hm == nil || hc == nil {
 		return "", fmt.Errorf("handleMatch/handleCommentMatch not found")
 	}
-	hms, hcs := c03StmtSet(fset, hm), c03StmtSet(fset, hc)
-	add("handleMatch: reported node defaults to the whole match", hms[normText("node := m.Node")] == 1)
-	add("handleMatch: At() relocates to the named capture", hms[normText("if rule.location != \"\" {node, _ = m.CapturedByName(rule.location)}")] == 1)
-	add("handleMatch: message rendered with truncation", hms[normText("messageText = rr.renderMessage(rule.msg, matchData{match: m}, true)")] == 1)
-	add("handleMatch: suggestion rendered without truncation", hms[normText("suggestText = rr.renderMessage(rule.suggestion, matchData{match: m}, false)")] == 1)
-	add("handleMatch: suggestion replaces [node.Pos(), node.End())", hms[normText("suggestion = &Suggestion{Replacement: []byte(suggestText), From: node.Pos(), To: node.End()}")] == 1)
-	add("handleMatch: RuleInfo carries the rule's group and line", hms[normText("info := GoRuleInfo{Group: rule.group, Line: rule.line}")] == 1 && hms[normText("rr.reportData.RuleInfo = info")] == 1)
-	add("handleMatch: report fields", hms[normText("rr.reportData.Node = node")] == 1 && hms[normText("rr.reportData.Message = messageText")] == 1 && hms[normText("rr.reportData.Suggestion = suggestion")] == 1)
-	add("handleCommentMatch: reported node defaults to the whole match", hcs[normText("node := m.Node()")] == 1)
-	add("handleCommentMatch: At() relocates to the named capture", hcs[normText("if rule.base.location != \"\" {node, _ = m.CapturedByName(rule.base.location)}")] == 1)
-	add("handleCommentMatch: message rendered with truncation", hcs[normText("message := rr.renderMessage(rule.base.msg, m, true)")] == 1)
-	add("handleCommentMatch: suggestion untruncated over [node.Pos(), node.End())",
-		hcs[normText("suggestion = &Suggestion{Replacement: []byte(rr.renderMessage(rule.base.suggestion, m, false)), From: node.Pos(), To: node.End()}")] == 1)
-	add("handleCommentMatch: RuleInfo carries the rule's group and line", hcs[normText("info := GoRuleInfo{Group: rule.base.group, Line: rule.base.line}")] == 1 && hcs[normText("rr.reportData.RuleInfo = info")] == 1)
-	add("handleCommentMatch: report fields", hcs[normText("rr.reportData.Node = node")] == 1 && hcs[normText("rr.reportData.Message = message")] == 1 && hcs[normText("rr.reportData.Suggestion = suggestion")] == 1)
+	// structural reading of a report handler: robust against harmless rewrites, fails closed on anything else
+	handler := func(fd *ast.FuncDecl, prefix, whole string) {
+		name := fd.Name.Name
+		// node := <whole match>; every other assignment to node sits under `if <prefix>location != ""` and takes its value
+		// from m.CapturedByName(<prefix>location) (directly, or through a variable defined from that call in the same block)
+		declOK, otherOK, relocates := false, true, false
+		var walk func(n ast.Node, underLoc bool, locVars map[string]bool)
+		walk = func(n ast.Node, underLoc bool, locVars map[string]bool) {
+			switch st := n.(type) {
+			case *ast.IfStmt:
+				inLoc := underLoc || exprString(fset, st.Cond) == prefix+"location != \"\""
+				vars := locVars
+				if st.Init != nil {
+					if as, ok := st.Init.(*ast.AssignStmt); ok && as.Tok == token.DEFINE && len(as.Rhs) == 1 &&
+						exprString(fset, as.Rhs[0]) == "m.CapturedByName("+prefix+"location)" {
+						vars = map[string]bool{}
+						for k := range locVars {
+							vars[k] = true
+						}
+						if id, ok := as.Lhs[0].(*ast.Ident); ok {
+							vars[id.Name] = true
+						}
+					} else {
+						walk(st.Init, inLoc, vars)
+					}
+				}
+				walk(st.Body, inLoc, vars)
+				if st.Else != nil {
+					walk(st.Else, underLoc, locVars)
+				}
+			case *ast.BlockStmt:
+				for _, x := range st.List {
+					walk(x, underLoc, locVars)
+				}
+			case *ast.AssignStmt:
+				for i, l := range st.Lhs {
+					id, ok := l.(*ast.Ident)
+					if !ok || id.Name != "node" {
+						continue
+					}
+					rhs := ""
+					if len(st.Rhs) == len(st.Lhs) {
+						rhs = exprString(fset, st.Rhs[i])
+					} else if len(st.Rhs) == 1 {
+						rhs = exprString(fset, st.Rhs[0])
+					}
+					switch {
+					case st.Tok == token.DEFINE && rhs == whole && !underLoc:
+						declOK = true
+					case underLoc && (rhs == "m.CapturedByName("+prefix+"location)" || locVars[rhs]):
+						relocates = true
+					default:
+						otherOK = false
+					}
+				}
+			case *ast.ForStmt:
+				walk(st.Body, underLoc, locVars)
+			case *ast.RangeStmt:
+				walk(st.Body, underLoc, locVars)
+			case *ast.SwitchStmt:
+				walk(st.Body, underLoc, locVars)
+			case *ast.CaseClause:
+				for _, x := range st.Body {
+					walk(x, underLoc, locVars)
+				}
+			}
+		}
+		walk(fd.Body, false, map[string]bool{})
+		add(name+": reported node defaults to the whole match", declOK && otherOK)
+		add(name+": At() relocates to the named capture", relocates && otherOK)
+		// Suggestion{From: node.Pos(), To: node.End(), Replacement: ...}; GoRuleInfo{Group, Line}
+		suggOK, infoOK, nSugg, nInfo := false, false, 0, 0
+		ast.Inspect(fd.Body, func(n ast.Node) bool {
+			cl, ok := n.(*ast.CompositeLit)
+			if !ok {
+				return true
+			}
+			fields := map[string]string{}
+			for _, e := range cl.Elts {
+				if kv, ok := e.(*ast.KeyValueExpr); ok {
+					fields[exprString(fset, kv.Key)] = exprString(fset, kv.Value)
+				}
+			}
+			switch exprString(fset, cl.Type) {
+			case "Suggestion":
+				nSugg++
+				suggOK = fields["From"] == "node.Pos()" && fields["To"] == "node.End()" && len(fields) == 3 && fields["Replacement"] != ""
+			case "GoRuleInfo":
+				nInfo++
+				infoOK = fields["Group"] == prefix+"group" && fields["Line"] == prefix+"line"
+			}
+			return true
+		})
+		add(name+": suggestion replaces [node.Pos(), node.End())", suggOK && nSugg == 1)
+		add(name+": RuleInfo carries the rule's group and line", infoOK && nInfo == 1)
+		// renderMessage(<prefix>msg, _, true) and renderMessage(<prefix>suggestion, _, false), nothing else
+		msgOK, sgOK, callsOK := false, false, true
+		ast.Inspect(fd.Body, func(n ast.Node) bool {
+			ce, ok := n.(*ast.CallExpr)
+			if !ok || exprString(fset, ce.Fun) != "rr.renderMessage" {
+				return true
+			}
+			if len(ce.Args) != 3 {
+				callsOK = false
+				return true
+			}
+			a0, a2 := exprString(fset, ce.Args[0]), exprString(fset, ce.Args[2])
+			switch {
+			case a0 == prefix+"msg" && a2 == "true":
+				msgOK = true
+			case a0 == prefix+"suggestion" && a2 == "false":
+				sgOK = true
+			default:
+				callsOK = false
+			}
+			return true
+		})
+		add(name+": message rendered with truncation, suggestion without", msgOK && sgOK && callsOK)
+		ss := c03StmtSet(fset, fd)
+		add(name+": the report carries the node, the suggestion and the rule info",
+			ss[normText("rr.reportData.Node = node")] == 1 && ss[normText("rr.reportData.Suggestion = suggestion")] == 1 && ss[normText("rr.reportData.RuleInfo = info")] == 1)
+	}
+	handler(hm, "rule.", "m.Node")
+	handler(hc, "rule.base.", "m.Node()")
 
 	// ---- loader: the line of a rule is the line of its pattern alternative
 	ls := c03FindFunc(lf, "loadSyntaxRule")
